@@ -169,6 +169,18 @@ _scope(
 )
 
 
+# 9. the same triple asserted in several graphs (and, as triples, immediate duplicates)
+_S0, _S1 = (AX, AP, L("x")), (AX, AP, AX)
+_scope(
+    "samegraph",
+    [_S0, _S0, _S0, _S1, _S1, _S0],
+    [(8, 0, 0), (8, 1, 0), (8, 2, 0), (4000, 150, 32)],
+    gnames=[DEFAULT, I("http://a/g"), B("g"), DEFAULT, I("http://a/g"), I("http://b#g")],
+    note="one triple in the default graph, two named graphs and a blank-node graph: consecutive "
+         "quads that differ in the graph name only",
+)
+
+
 def triples(scope: str) -> list:
     return SCOPES[scope]["triples"]
 
